@@ -16,10 +16,11 @@ Model of external authentication in the ingress converter and the template (C18)
   backend block that calls it                                   → `rulesOf`, `backendRules`, `frontRules`
 
 The validation of one auth-url is abstracted to its outcomes (`Url`); everything after that is
-the control flow of the Go code on the shared per-path record.  `fixed` selects the behaviour of
-`buildBackendOAuth`: `false` = precedence test on the backend-wide `d.mapper.Get(auth-url)` that
-clears `AlwaysDeny`; `true` = precedence test on the path's own value that restores what
-auth-url left on the record.  Core-only.
+the control flow of the Go code on the shared per-path record.  A `Variant` selects between the
+code as first found and its repairs: `oauthOwn` — `buildBackendOAuth`: `false` = precedence test on
+the backend-wide `d.mapper.Get(auth-url)` that clears `AlwaysDeny`; `true` = precedence test on
+the path's own value that restores what auth-url left on the record; `usedFront` — the clean-up
+of `setAuthExternal` also keeps the names in use by `HostPath.AuthExt`.  Core-only.
 -/
 namespace HapVerif.C18
 
@@ -215,6 +216,12 @@ structure St where
   frec : Nat → Option AuthRec := fun _ => none -- `HostPath.AuthExt` per path index
   cleaned : Bool := false
 
+/-- which code is modelled -/
+structure Variant where
+  oauthOwn : Bool     -- `buildBackendOAuth` tests the path's own auth-url and restores the deny
+  usedFront : Bool    -- the clean-up keeps the names used by frontend placed paths too
+deriving Repr, DecidableEq
+
 /-- `Backends.BuildUsedAuthBackends`: only the records of backend paths are looked at -/
 def usedPorts (n : Nat) (brec : Nat → AuthRec) : List Int :=
   (List.range n).filterMap fun i =>
@@ -222,9 +229,21 @@ def usedPorts (n : Nat) (brec : Nat → AuthRec) : List Int :=
     | .proxy p => some p
     | _ => none
 
-def frontStep (w : World) (u : Url) (signin : Bool) (st : St) (i : Nat) : St :=
+/-- names in use by `HostPath.AuthExt` -/
+def usedFrontPorts (n : Nat) (frec : Nat → Option AuthRec) : List Int :=
+  (List.range n).filterMap fun i =>
+    match frec i with
+    | some r => (match r.name with | .proxy p => some p | _ => none)
+    | none => none
+
+/-- the `used` set of the clean-up in `setAuthExternal` -/
+def usedOf (v : Variant) (w : World) (st : St) : List Int :=
+  usedPorts w.paths.length st.brec ++
+    (if v.usedFront then usedFrontPorts w.paths.length st.frec else [])
+
+def frontStep (v : Variant) (w : World) (u : Url) (signin : Bool) (st : St) (i : Nat) : St :=
   let res := setAuth w.isExternal w.hasLua w.rangeStart w.rangeEnd
-    (usedPorts w.paths.length st.brec) st.binds {} u signin
+    (usedOf v w st) st.binds {} u signin
   { st with binds := res.2.1, frec := upd st.frec i (some res.1), cleaned := st.cleaned || res.2.2 }
 
 def idxsWhere (w : World) (f : PathIn → Bool) : List Nat :=
@@ -234,20 +253,20 @@ def idxsWhere (w : World) (f : PathIn → Bool) : List Nat :=
     | none => false
 
 /-- `buildHostAuthExternal` of one host: placement and URL are the host mapper's -/
-def hostPhase (w : World) (st : St) (h : Nat) : St :=
+def hostPhase (v : Variant) (w : World) (st : St) (h : Nat) : St :=
   match hostPlc w h, hostUrl w h with
-  | .frontend, .val u => (idxsWhere w (·.host = h)).foldl (frontStep w u (hostSignin w h)) st
+  | .frontend, .val u => (idxsWhere w (·.host = h)).foldl (frontStep v w u (hostSignin w h)) st
   | _, _ => st
 
 /-- one iteration of `buildBackendAuthExternal` -/
-def authStep (w : World) (st : St) (i : Nat) : St :=
+def authStep (v : Variant) (w : World) (st : St) (i : Nat) : St :=
   match w.paths[i]? with
   | none => st
   | some p =>
     match ownPlc p, p.url with
     | .backend, .val u =>
       let res := setAuth w.isExternal w.hasLua w.rangeStart w.rangeEnd
-        (usedPorts w.paths.length st.brec) st.binds (st.brec i) u p.signin
+        (usedOf v w st) st.binds (st.brec i) u p.signin
       { st with binds := res.2.1, brec := upd st.brec i res.1, cleaned := st.cleaned || res.2.2 }
     | _, _ => st
 
@@ -266,10 +285,10 @@ def oauthRec (fixed : Bool) (w : World) (p : PathIn) (r : AuthRec) : AuthRec :=
       { alwaysDeny := false, name := .backend backend, allowedPath := pfx ++ "/",
         authPath := pfx ++ "/auth", redirect := true }
 
-def oauthStep (fixed : Bool) (w : World) (st : St) (i : Nat) : St :=
+def oauthStep (v : Variant) (w : World) (st : St) (i : Nat) : St :=
   match w.paths[i]? with
   | none => st
-  | some p => { st with brec := upd st.brec i (oauthRec fixed w p (st.brec i)) }
+  | some p => { st with brec := upd st.brec i (oauthRec v.oauthOwn w p (st.brec i)) }
 
 def ordOf (w : World) (i : Nat) : Nat :=
   match w.paths[i]? with
@@ -290,14 +309,19 @@ def backendIdxs (w : World) (b : Nat) : List Nat :=
   sortBy (ordOf w) (idxsWhere w (·.backend = b))
 
 /-- `UpdateBackendConfig`: `buildBackendAuthExternal` over all paths, later `buildBackendOAuth` -/
-def backendPhase (fixed : Bool) (w : World) (st : St) (b : Nat) : St :=
-  (backendIdxs w b).foldl (oauthStep fixed w) ((backendIdxs w b).foldl (authStep w) st)
+def backendPhase (v : Variant) (w : World) (st : St) (b : Nat) : St :=
+  (backendIdxs w b).foldl (oauthStep v w) ((backendIdxs w b).foldl (authStep v w) st)
 
 /-- `fullSyncAnnotations`: every host, then every backend.  `Hosts().Items()` and
 `Backends().Items()` are Go maps: both orders are arbitrary (`hostOrder`, `backendOrder` list
 each host / backend once) -/
-def run (fixed : Bool) (w : World) (hostOrder backendOrder : List Nat) : St :=
-  backendOrder.foldl (backendPhase fixed w) (hostOrder.foldl (hostPhase w) {})
+def run (v : Variant) (w : World) (hostOrder backendOrder : List Nat) : St :=
+  backendOrder.foldl (backendPhase v w) (hostOrder.foldl (hostPhase v w) {})
+
+/-- the code as first found / with `buildBackendOAuth` repaired / with both repairs -/
+def vFound : Variant := ⟨false, false⟩
+def vOAuth : Variant := ⟨true, false⟩
+def vBoth : Variant := ⟨true, true⟩
 
 /-! ## rendering -/
 
